@@ -390,6 +390,12 @@ def r7_every_move_fully_recorded(ctx, rid="C02.R7"):
                     # a producer that never touches this field leaves it at its zero default (no promotion, no e.p.
                     # mark, nothing captured, no castle mark, no next e.p. square): legitimate for a special-purpose producer
                     continue
+                if not via and any(c_ == k and h_.startswith(MF.MOVE) for (c_, h_) in getattr(prog, "inlined", [])):
+                    # the producer never calls this setter, but a Move method that is new to the reviewed tree was
+                    # spliced into it (the field is recorded through another accessor, e.g. a merged undo field): how
+                    # the field gets its value is not read off the setter calls here (C03.R9 evaluates the accessors)
+                    ctx.lost(rid, "%s records %s through a new Move method (no call of Move::%s)" % (k.rsplit("::", 1)[-1], sname[4:], sname))
+                    continue
                 # can the push be reached from the entry without passing a call of this setter?
                 seen, work = set(), [0]
                 reach = False
